@@ -35,5 +35,6 @@ Record config := {
   c_repair_aggressive : bool;
   c_repair_max_attempts : Z;
   c_repair_cooldown : Z;               (* ns *)
-  c_stream_from_reasonable_lag : Z     (* seconds *)
+  c_stream_from_reasonable_lag : Z;    (* seconds *)
+  c_disable_semisync_on_maint : bool
 }.
